@@ -251,6 +251,158 @@ theorem loop_no_error {F : Type} [Agg.Num F] {c : Cfg} : ∀ (envs : List Env) (
         rw [ih st' h]
         exact (iter_refines hi).choose_spec.2.2
 
+/-! ## C01 ∘ C02 ∘ Channel: a delivered datagram completes exactly the probe it answers -/
+
+/-- how the tracer must report probe `p` once response `r` has been accepted for it -/
+def completeOf (c : Cfg) (r : Resp) (p : Probe) : Complete :=
+  { probe := p, host := r.addr, received := r.recv, kind := (strategyResp c r).kind,
+    tos := (strategyResp c r).tos, expCk := (strategyResp c r).expCk,
+    actCk := (strategyResp c r).actCk, ext := (strategyResp c r).ext }
+
+theorem strategyResp_addr_recv (c : Cfg) (r : Resp) :
+    (strategyResp c r).addr = r.addr ∧ (strategyResp c r).received = r.recv := by
+  simp only [strategyResp]
+  cases r.kind <;> simp
+
+/-- **End to end, receive side.**  The tracer has run its send step (`hsend`; ICMP or UDP).  The
+receive socket is readable and delivers `bytes` which the family's receive code decodes to a
+response `w` that is `Accepted` for the probe `p` — the conclusion of every C02 theorem for a
+conforming quotation of the bytes dispatched for `p` — and `p` is still awaiting its first answer.
+Then: `recv_probe` returns `w`; the strategy completes exactly `p`'s slot with the responder's
+address (`addrNat w.addr`), the receive time (the clock after the wait) and the response's kind,
+and leaves every other slot alone; and if this very iteration publishes the round, the published
+round reports `p` complete with those data. -/
+theorem datagram_completes_probe {F : Type} [Agg.Num F] {c : Cfg} (hc : CfgOk c) {st : St F}
+    (hs : Reach c st.ts) {e : Env} {ch : Chan.Chan} {ts1 : TS} {sent : List (Probe × SendOutcome)}
+    {calls : List (List Wire.SockOp)}
+    (hsend : sendRequestS c st.chan st.ts e.injs = .ok (ch, ts1, sent, calls))
+    (hp : st.chan.cfg.proto ≠ .tcp) (hrd : e.recv.readable = .yes) (src bytes : Buf)
+    (hdg : e.recv.dgram = .data src bytes) (w : Wire.WResp)
+    (hw : Wire.recvIcmp st.chan.cfg (bytes.take 1024) src = .ok (some w)) (p : Probe)
+    (hacc : C02.Accepted c (w.toStrat (st.chan.now + e.dt)) p.seq)
+    (haw : answered ts1 p.seq = some p) :
+    (Chan.recv (Chan.advance ch e.dt) e.recv).out = .ok (some w) ∧
+    (w.toStrat (st.chan.now + e.dt)).addr = Wire.addrNat w.addr ∧
+    (w.toStrat (st.chan.now + e.dt)).recv = st.chan.now + e.dt ∧
+    ∃ ts2, recvResponse c ts1 e.dt (.resp (w.toStrat (st.chan.now + e.dt))) = .ok ts2 ∧
+      ts2.buffer[p.seq - ts1.roundSeq]? =
+        some (.complete (completeOf c (w.toStrat (st.chan.now + e.dt)) p)) ∧
+      (∀ k, k ≠ p.seq - ts1.roundSeq → ts2.buffer[k]? = ts1.buffer[k]?) ∧
+      ∀ (st' : St F) (o : Out), Stack.iter c st e = .ok (st', o) →
+        o.recv = some w ∧ o.sent = sent ∧
+        ∀ r, o.published = some r →
+          r.probes[p.seq - ts1.roundSeq]? =
+            some (.complete (completeOf c (w.toStrat (st.chan.now + e.dt)) p)) := by
+  generalize hresp : w.toStrat (st.chan.now + e.dt) = resp at hacc ⊢
+  have hsame := sendRequestS_chan hsend
+  simp only [SameChan] at hsame
+  have hi := reach_inv hc hs
+  have hsr := sendRequestS_ok hsend
+  simp only at hsr
+  have hi1 : Inv c ts1 := ((sendRequest_spec hc hi _).2 _ _ hsr).1
+  -- what `recv_probe` returns
+  have hrecv : (Chan.recv (Chan.advance ch e.dt) e.recv).out = .ok (some w) := by
+    have hcfg : (Chan.advance ch e.dt).cfg = st.chan.cfg := by simp [Chan.advance, hsame.1]
+    have h1 := (Channel.recv_is_wire_recv (Chan.advance ch e.dt) e.recv).1 (by rw [hcfg]; exact hp)
+    have h2 := (Channel.recv_is_wire_recv (Chan.advance ch e.dt) e.recv).2.1 src bytes hrd hdg
+    rw [h1, h2, hcfg]; exact hw
+  refine ⟨hrecv, by rw [← hresp]; rfl, by rw [← hresp]; rfl, ?_⟩
+  -- the strategy's receive step: the response is genuine for `p`
+  obtain ⟨hge, hltseq, _, hround, _, _, hslotp⟩ := answered_props hi1 haw
+  have hlen : p.seq - ts1.roundSeq < ts1.buffer.length := by
+    rcases List.getElem?_eq_some_iff.mp hslotp with ⟨h, _⟩; exact h
+  have hwin : inRound ts1 p.seq = true := by
+    have := hi1.len; simp [inRound, hge]; omega
+  obtain ⟨hv, ht, hseq⟩ := hacc
+  have hgen : genuine c ts1 resp = some p := by
+    unfold genuine
+    rw [hseq, hv, ht, hwin]; simpa using haw
+  obtain ⟨haddr, hrecvt⟩ := strategyResp_addr_recv c resp
+  have hans : answered (tick ts1 e.dt) (strategyResp c resp).seq = some p := by
+    rw [answered_tick, hseq]; exact haw
+  have hi2 : Inv c (afterComplete (tick ts1 e.dt) (strategyResp c resp) p) :=
+    inv_afterComplete (inv_tick hi1 _) _ hans
+  have hrr : recvResponse c ts1 e.dt (.resp resp) =
+      .ok (afterComplete (tick ts1 e.dt) (strategyResp c resp) p) := by
+    rw [recvResponse_spec hi1, hgen]
+  have hslot : (afterComplete (tick ts1 e.dt) (strategyResp c resp) p).buffer[p.seq - ts1.roundSeq]? =
+      some (.complete (completeOf c resp p)) := by
+    simp only [afterComplete, tick, hseq, completeOf, haddr, hrecvt]
+    rw [List.getElem?_set_self hlen]
+  refine ⟨_, hrr, hslot, ?_, ?_⟩
+  · intro k hk
+    simp only [afterComplete, tick, hseq]
+    rw [List.getElem?_set_ne (fun h => hk h.symm)]
+  · intro st' o hit
+    unfold Stack.iter at hit
+    have hnow : (Chan.advance ch e.dt).now = st.chan.now + e.dt := by simp [Chan.advance, hsame.2.1]
+    simp only [hsend, R.bind_ok, hrecv, recvOutcome, hnow, hresp, hrr] at hit
+    obtain ⟨hu1, hu2⟩ := updateRound_spec hc hi2
+    by_cases hrc : roundComplete c (afterComplete (tick ts1 e.dt) (strategyResp c resp) p) = true
+    · obtain ⟨r, hr, hu⟩ := hu2 hrc
+      simp only [hu, R.bind_ok] at hit
+      cases ha : st.agg.updateFromRound r with
+      | panic => simp [ha] at hit
+      | err er => simp [ha] at hit
+      | ok agg' =>
+        simp only [ha, R.bind_ok] at hit
+        cases hit
+        refine ⟨rfl, rfl, ?_⟩
+        intro r0 hr0
+        cases hr0
+        obtain ⟨r', hr', hprobes, _⟩ := publishTrace_ok hc hi2
+        rw [hr] at hr'; cases hr'
+        rw [hprobes, List.getElem?_take]
+        have hk := (hi2.slots _ _ p hslot (by simp [Slot.probe?, completeOf])).2
+          (by simpa [afterComplete, tick] using hround)
+        rw [if_pos hk.1]; exact hslot
+    · have hu := hu1 (by simpa using hrc)
+      simp only [hu, R.bind_ok] at hit
+      cases hit
+      exact ⟨rfl, rfl, fun r0 hr0 => by cases hr0⟩
+
+/-- **ICMP over IPv4, socket to published round** (`datagram_completes_probe` ∘ `C02.icmp_v4`): a
+router or the target returns the Echo Request the tracer dispatched for probe `p` — quoted
+(`quote4`: TOS / total length / TTL / header checksum rewritten, IP header + 8 + `n` octets, any
+`n`) in a Time Exceeded or Destination Unreachable message of any embedding (plain, RFC 4884
+compliant or legacy, any extension structure), from any responder, in a datagram that fits the
+receive buffer.  Then `p` — and only `p` — is reported complete, with that responder as its host
+and the clock after the wait as its receive time. -/
+theorem icmp_v4_end_to_end {F : Type} [Agg.Num F] {c : Cfg} (hc : CfgOk c) {st : St F}
+    (hs : Reach c st.ts) {e : Env} {ch : Chan.Chan} {ts1 : TS} {sent : List (Probe × SendOutcome)}
+    {calls : List (List Wire.SockOp)}
+    (hsend : sendRequestS c st.chan st.ts e.injs = .ok (ch, ts1, sent, calls))
+    (hcs : C02.Compat st.chan.cfg c) (haddr : st.chan.cfg.AddrOk) (hv : st.chan.cfg.v6 = false)
+    (hp : st.chan.cfg.proto = .icmp) (hsz : Wire.SizeOk st.chan.cfg)
+    (ts0 : TS) (ttl : Nat) (p : Probe) (hem : C11.emitted c ts0 ttl = .ok p) (hpr : Wire.ProbeOk p)
+    (haw : answered ts1 p.seq = some p)
+    (k : Quote.KernelFill) (d : Buf) (hd : Quote.wireDatagram st.chan.cfg k p = some d)
+    (m : C02.ErrMsg false) (o : Quote.Outer4) (responder src : Buf) (hr : responder.length = 4)
+    (mu : Quote.Mut4) (n : Nat) (hb : Wire.BodyOk false (Quote.quote4 mu d n) m.b)
+    (hfit : (Quote.deliver st.chan.cfg o responder
+        (Quote.icmpMessage false m.h m.b (Quote.quote4 mu d n))).length ≤ 1024)
+    (hrd : e.recv.readable = .yes)
+    (hdg : e.recv.dgram = .data src (Quote.deliver st.chan.cfg o responder
+        (Quote.icmpMessage false m.h m.b (Quote.quote4 mu d n)))) :
+    ∃ resp : Resp, resp.addr = Wire.addrNat responder ∧ resp.recv = st.chan.now + e.dt ∧
+      resp.kind = m.kind ∧
+      ∃ ts2, recvResponse c ts1 e.dt (.resp resp) = .ok ts2 ∧
+        ts2.buffer[p.seq - ts1.roundSeq]? = some (.complete (completeOf c resp p)) ∧
+        (∀ j, j ≠ p.seq - ts1.roundSeq → ts2.buffer[j]? = ts1.buffer[j]?) ∧
+        ∀ (st' : St F) (out : Out), Stack.iter c st e = .ok (st', out) →
+          ∀ r, out.published = some r →
+            r.probes[p.seq - ts1.roundSeq]? = some (.complete (completeOf c resp p)) := by
+  obtain ⟨w, hw, hwa, hwk, hacc⟩ := C02.icmp_v4 st.chan.cfg c hcs haddr hv hp hsz ts0 ttl p hem hpr k d hd
+    m o responder src hr mu n hb (st.chan.now + e.dt)
+  have htake : ∀ (b : Buf), b.length ≤ 1024 → b.take 1024 = b := fun b hb => List.take_of_length_le hb
+  have hw' : Wire.recvIcmp st.chan.cfg ((Quote.deliver st.chan.cfg o responder
+      (Quote.icmpMessage false m.h m.b (Quote.quote4 mu d n))).take 1024) src = .ok (some w) := by
+    rw [htake _ hfit]; exact hw
+  obtain ⟨_, ha, hrt, ts2, h1, h2, h3, h4⟩ := datagram_completes_probe (F := F) hc hs hsend
+    (by rw [hp]; simp) hrd src _ hdg w hw' p hacc haw
+  refine ⟨w.toStrat (st.chan.now + e.dt), by rw [ha, hwa], hrt, by simpa [Wire.WResp.toStrat] using hwk,
+    ts2, h1, h2, h3, fun st' out hit r hr => (h4 st' out hit).2.2 r hr⟩
+
 end TV.Props.Stack
 
 #print axioms TV.Props.Stack.iter_refines
@@ -259,3 +411,5 @@ end TV.Props.Stack
 #print axioms TV.Props.Stack.stack_state_is_aggregation
 #print axioms TV.Props.Stack.loop_error_recorded
 #print axioms TV.Props.Stack.loop_no_error
+#print axioms TV.Props.Stack.datagram_completes_probe
+#print axioms TV.Props.Stack.icmp_v4_end_to_end
